@@ -558,7 +558,16 @@ class Subprocess(object):
 
         exit_expected = es in self.config.exitcodes
 
-        if self.killing:
+        if self.state == ProcessStates.UNKNOWN:
+            # signalling the child failed earlier and we no longer know what
+            # it is doing; record that it is gone but make no state change
+            self.killing = False
+            self.delay = 0
+            self.exitstatus = es
+            msg = "exited: %s (%s)" % (processname, msg)
+            self.config.options.logger.warn(msg)
+
+        elif self.killing:
             # likely the result of a stop request
             # implies STOPPING -> STOPPED
             self.killing = False
